@@ -331,7 +331,8 @@ fn eval_mutant(
     // 2. the fixed circuit of the honest shape, inputs packed from the mutant
     progress(child, "fixed");
     if fixed_applicable(&p) {
-        let same_inputs = !mu.path.contains("opening_proof")
+        // (Merkle siblings live under `query_proofs`; they reach the circuit as private op data)
+        let same_inputs = !mu.path.contains("query_proofs")
             && matches!((honest_compiled.pack(&m), honest_pack), (Ok(a), Some(b)) if a == *b);
         if same_inputs {
             // the flattened input vectors are those of the honest proof: nothing the circuit could see
@@ -391,6 +392,37 @@ fn child_main(args: &Args) -> ! {
         Ok(Err(v)) => fail(format!("honest compile: {}", v.label())),
         Err(e) => fail(e),
     };
+    if args.extra.contains_key("fri-args") {
+        println!("B 0");
+        println!("P verify_fri_circuit");
+        let recs: Vec<Rec> = match prep.ctx.fri_arg_mutants(&h) {
+            Err(e) => vec![Rec::inconclusive(format!("{name}:fri-args"), e)],
+            Ok(list) => {
+                let honest_ok = list.iter().any(|(l, v)| l == "none" && v.accepts());
+                list.into_iter()
+                    .map(|(label, v)| {
+                        let key = format!("{name}:verify_fri_circuit:{label}");
+                        match &v {
+                            CircV::Panic { msg, .. } => Rec::violated(
+                                key,
+                                format!("panic/verify_fri_circuit/{}", kit::norm_site(msg)),
+                                json!({"shape": name, "fri_arg_mutation": label, "entry_point": "verify_fri_circuit", "panic": msg}),
+                            ),
+                            _ if !honest_ok => Rec::inconclusive(key, "verify_fri_circuit rejects the unmutated arguments".into()),
+                            _ => Rec::held(key, label != "none").count(
+                                format!("verify_fri_circuit/{}", if v.accepts() { "built" } else { "typed-error" }),
+                                1,
+                            ),
+                        }
+                    })
+                    .collect()
+            }
+        };
+        println!("R {}", serde_json::to_string(&recs).unwrap());
+        println!("E 0");
+        println!("D");
+        std::process::exit(0)
+    }
     let mutants = enumerate(&h, thorough);
     let honest_pack = compiled.pack(&h).ok();
     for (k, mu) in mutants.iter().enumerate().take(hi).skip(lo) {
@@ -408,6 +440,8 @@ struct Job {
     shape: usize,
     lo: usize,
     hi: usize,
+    /// the `verify_fri_circuit` argument-mutation job of this shape (no bundle mutants)
+    fri_args: bool,
 }
 
 fn status_label(st: &std::process::ExitStatus) -> String {
@@ -453,13 +487,14 @@ fn run_job(
     let mut respawns = 0;
     while lo < job.hi {
         let cmd = format!(
-            "ulimit -c 0; ulimit -v {mem_kb}; exec timeout {secs} '{}' --child 1 --tier {} --shape-name '{}' --bundle '{}' --lo {} --hi {}",
+            "ulimit -c 0; ulimit -v {mem_kb}; exec timeout {secs} '{}' --child 1 --tier {} --shape-name '{}' --bundle '{}' --lo {} --hi {}{}",
             exe.display(),
             tier.name(),
             name,
             file,
             lo,
-            job.hi
+            job.hi,
+            if job.fri_args { " --fri-args 1" } else { "" }
         );
         let res = Command::new("sh").arg("-c").arg(&cmd).stdin(Stdio::null()).stderr(Stdio::null()).output();
         let Ok(res) = res else {
@@ -496,6 +531,15 @@ fn run_job(
             break;
         }
         let label = status_label(&res.status);
+        if job.fri_args {
+            out.push(CaseResult::violated(
+                format!("{name}:verify_fri_circuit:abort"),
+                format!("abort/verify_fri_circuit/{label}@{}GiB", mem_kb / (1024 * 1024)),
+                json!({"shape": name, "entry_point": "verify_fri_circuit", "status": label,
+                    "note": "the child running the argument mutations of verify_fri_circuit died"}),
+            ));
+            return out;
+        }
         match cur {
             Some(k) => {
                 let mu = &mutants[job.shape][k];
@@ -550,14 +594,29 @@ fn replay(path: &std::path::Path) -> Vec<CaseResult> {
     let Some(shape) = kit::shape_by_name(&name) else {
         return vec![CaseResult::inconclusive("replay", format!("unknown shape {name}"))];
     };
-    let Ok(mu) = serde_json::from_value::<Mutant>(d["mutant"].clone()) else {
-        return vec![CaseResult::inconclusive("replay", "no mutant in replay file")];
-    };
     let h = match shape.honest() {
         Ok(h) => h,
         Err(e) => return vec![CaseResult::inconclusive("replay", e)],
     };
     let ctx = shape.ctx().expect("ctx");
+    if let Some(label) = d["fri_arg_mutation"].as_str() {
+        let list = ctx.fri_arg_mutants(&h).unwrap_or_default();
+        return list
+            .into_iter()
+            .filter(|(l, _)| l == label)
+            .map(|(l, v)| match &v {
+                CircV::Panic { msg, .. } => CaseResult::violated(
+                    "replay",
+                    format!("panic/verify_fri_circuit/{}", kit::norm_site(msg)),
+                    json!({"shape": name, "fri_arg_mutation": l, "panic": msg}),
+                ),
+                _ => CaseResult::held("replay", true),
+            })
+            .collect();
+    }
+    let Ok(mu) = serde_json::from_value::<Mutant>(d["mutant"].clone()) else {
+        return vec![CaseResult::inconclusive("replay", "no mutant in replay file")];
+    };
     let compiled = match ctx.compile(&h) {
         Ok(Ok(c)) => c,
         _ => return vec![CaseResult::inconclusive("replay", "honest compile")],
@@ -633,8 +692,11 @@ fn main() {
                 );
                 let mut lo = 0;
                 while lo < ms.len() {
-                    jobs.push(Job { shape: si, lo, hi: (lo + chunk).min(ms.len()) });
+                    jobs.push(Job { shape: si, lo, hi: (lo + chunk).min(ms.len()), fri_args: false });
                     lo += chunk;
+                }
+                if s.kind() == "uni" {
+                    jobs.push(Job { shape: si, lo: 0, hi: 1, fri_args: true });
                 }
                 files.push(Some(f));
                 mutants.push(ms);
